@@ -70,6 +70,7 @@ struct BlockSpec {
   int zigzag = 0;              // number of legal +1-1 detours in delta paths per table (approx)
   int start_mode = 0;          // 0: start length = first length; 1: random legal start
   int deep = 0;                // bias towards long codes (20 bits)
+  int long_codes = 0;          // all occurring symbols get 20-bit codes (needs spare alphabet: set extra_inuse)
   // defects (at most one is normally set)
   enum Defect { NONE = 0, DELTA_HIGH, DELTA_LOW, DELTA_START0, DELTA_START21, SEL_RANGE, SEL_ZERO, NTABLES_1, NTABLES_7, BITMAP_EMPTY,
                 ORIGPTR_EQ, ORIGPTR_BIG, NO_EOB, BAD_BLOCK_CRC, BAD_MAGIC, USED_INCOMPLETE, USED_OVERSUB, UNUSED_INCOMPLETE, UNUSED_OVERSUB,
@@ -101,6 +102,8 @@ Bytes random_trailing(Rng &rng);
 
 // C10: a stream whose data / trailing bytes contain planted 48-bit block-header patterns
 GenOut gen_planted(Rng &rng, int *kind_out);
+// one block with exactly nsyms non-run symbols (flat 8-bit tables); see bz.cc
+GenOut gen_full_block(Rng &rng, size_t nsyms, int level, bool max_origptr);
 
 // ---------------------------------------------------------------- C04 model
 // Offsets (into input) at which blocks end, for capacity cap bytes after RLE.
